@@ -19,6 +19,11 @@ func ruleC02_shared(c *Ctx) {
 	c.R.Only("C13.3", "C13.4")
 	ruleC13(c)
 	c.R.Only()
+	// Decode into the bundled Encoder must not panic: SetCReg's trailing panic is unreachable only if every
+	// constructible colour is accepted by some form
+	c.R.Only("C09.3")
+	ruleC09_3(c)
+	c.R.Only()
 	// "at most four curve segments per drawing operation"
 	c.R.Only("C06.6")
 	ruleC06(c)
